@@ -25,11 +25,29 @@ const (
 	hxSetPartDescOpt
 	hxSetFileContentID
 	hxSetPartDescSetter
+	hxSetFromEncWord // From("=?utf-8?q?...?= <addr>"): net/mail decodes the encoded-word, the display name is the value
+	hxSetToEncWord   // AddTo(...) likewise
 	hxSetCount
 )
 
+var hxHexTbl = [16]byte{'0', '1', '2', '3', '4', '5', '6', '7', '8', '9', 'A', 'B', 'C', 'D', 'E', 'F'}
+
+// hxEncWordAddr is an address whose display name is an RFC 2047 Q encoded-word
+// in which every byte of v is written as =XX.
+func hxEncWordAddr(v string, addr string) string {
+	b := []byte("=?utf-8?q?")
+	for i := 0; i < len(v); i++ {
+		c := v[i]
+		b = append(b, '=', hxHexTbl[c>>4], hxHexTbl[c&15])
+	}
+	b = append(b, "?= <"...)
+	b = append(b, addr...)
+	b = append(b, '>')
+	return string(b)
+}
+
 var hxSetterNames = []string{"Subject", "SetGenHeader", "FromFormat", "AddToFormat", "SetMessageIDWithValue", "SetOrganization",
-	"SetUserAgent", "AttachReader-name", "WithFileName", "WithFileDescription", "WithPartContentDescription", "WithFileContentID", "Part.SetDescription"}
+	"SetUserAgent", "AttachReader-name", "WithFileName", "WithFileDescription", "WithPartContentDescription", "WithFileContentID", "Part.SetDescription", "From-encoded-word", "AddTo-encoded-word"}
 
 // hxBuildC02 builds a message in which setter `which` receives value v.
 // It returns nil if the setter rejected the value with an error.
@@ -43,12 +61,21 @@ func hxBuildC02(which int, v string, menc Encoding, multipart bool, noBody bool)
 		if err := m.FromFormat(v, "a@b.c"); err != nil {
 			return nil
 		}
+	} else if which == hxSetFromEncWord {
+		if err := m.From(hxEncWordAddr(v, "a@b.c")); err != nil {
+			return nil
+		}
 	} else {
 		_ = m.From("a@b.c")
 	}
 	if which == hxSetToName {
 		_ = m.To("first@e.f")
 		if err := m.AddToFormat(v, "d@e.f"); err != nil {
+			return nil
+		}
+	} else if which == hxSetToEncWord {
+		_ = m.To("first@e.f")
+		if err := m.AddTo(hxEncWordAddr(v, "d@e.f")); err != nil {
 			return nil
 		}
 	} else {
